@@ -28,10 +28,12 @@ class MaxOptimizer(AffineOptimizer):
         self, base: torch.Tensor, bits: int, axis: int
     ) -> Union[torch.Tensor, Tuple[torch.Tensor, torch.Tensor]]:
         dim = list(range(1, base.ndim)) if (axis == 0) else list(range(0, base.ndim - 1))
-        rmin = torch.amin(base, dim=dim, keepdim=True)
-        rmax = torch.amax(base, dim=dim, keepdim=True)
+        # The quantization range must include zero for the zero-point to fit in the storage type
+        rmin = torch.clamp(torch.amin(base, dim=dim, keepdim=True), max=0)
+        rmax = torch.clamp(torch.amax(base, dim=dim, keepdim=True), min=0)
         qmin = -(2 ** (bits - 1))
         qmax = 2 ** (bits - 1) - 1
         scale = (rmax - rmin) / (qmax - qmin)
-        zeropoint = torch.round(-rmin / scale).to(torch.int8)
+        # A null scale means that all values are null: any zero-point fits
+        zeropoint = torch.round(torch.where(scale == 0, scale, -rmin / scale)).to(torch.int8)
         return scale, zeropoint
